@@ -30,7 +30,7 @@ PROPS = {
     },
     'C05': {
         'level': 'fault_enumeration',
-        'strata': [('twin-solve-vs-loops', 'multi', 1.0)],
+        'strata': [('twin-solve-vs-loops', 'multi', 0.9), ('linker-solve-entry', 'linker', 0.1)],
         'quick': 30000,
         'thorough': 500000,
     },
